@@ -154,7 +154,11 @@ pub fn run_command(cmdline: &str, mut output_cb: impl FnMut(&[u8])) -> anyhow::R
     #[cfg(n2_verif)]
     if let Some(res) = crate::verif::run_command(cmdline) {
         let res = res?;
-        if !res.output.is_empty() {
+        if res.chunk > 0 {
+            for piece in res.output.chunks(res.chunk) {
+                output_cb(piece);
+            }
+        } else if !res.output.is_empty() {
             output_cb(&res.output);
         }
         return Ok(res.termination);
